@@ -657,7 +657,7 @@ func c16Concurrent(out *vlib.Out, r *vlib.Rand, n int) (expected, delivered int)
 		out.Count("skip:no-loopback-udp")
 		return 0, 0
 	}
-	defer l.Close()
+	defer c16Retire(l)
 	addr := l.Addr().(*net.UDPAddr)
 	pairs := make([]c16Pair, n)
 	desc := make([]string, n)
